@@ -3,6 +3,8 @@ package main
 import (
 	"encoding/json"
 	"fmt"
+	"io"
+	"log"
 	"net/http"
 	"strings"
 
@@ -27,6 +29,11 @@ type lookupIn struct {
 	// X-Forwarded-Host, X-Forwarded-Port, Forwarded). Routing looks at Host, the connection (TLS or not) and
 	// the path only: the model does not read this field.
 	Headers map[string]string `json:"headers,omitempty"`
+	// value of the "trace" request header that the two callers hand to Lookup (tracing only logs)
+	Trace string `json:"trace,omitempty"`
+	// c03.grpc: the values of the "dsthost" metadata key when there is not exactly one (the interceptor then
+	// routes with an empty host); with exactly one value that value is Host
+	DstHosts []string `json:"dsthosts,omitempty"`
 }
 
 // request builds the request value of the case: Host, TLS state, path and the headers.
@@ -123,6 +130,12 @@ func lookupOracle(in *lookupIn) map[string]interface{} {
 // shrunk and replayed inputs stay self-consistent). A panic of the real code is reported as
 // {"panic": text, "oracle": …}.
 func runLookup(raw json.RawMessage) (res interface{}, err error) {
+	return runLookupVia(raw, nil)
+}
+
+// runLookupVia: entry == nil asks Table.Lookup itself; otherwise entry is another caller of it (the gRPC
+// interceptor) that answers for the table and the case.
+func runLookupVia(raw json.RawMessage, entry func(t route.Table, in *lookupIn) (tg *route.Target, skip bool)) (res interface{}, err error) {
 	var in lookupIn
 	if err := json.Unmarshal(raw, &in); err != nil {
 		return nil, err
@@ -160,7 +173,16 @@ func runLookup(raw json.RawMessage) (res interface{}, err error) {
 	} else {
 		gc2 = route.NewGlobCache(1) // Lookup must not touch it
 	}
-	tg := t.Lookup(in.request(), "", route.Picker["rr"], match, gc2, in.NoGlob)
+	var tg *route.Target
+	if entry != nil {
+		var skip bool
+		if tg, skip = entry(t, &in); skip {
+			out["skip"] = true
+			return out, nil
+		}
+	} else {
+		tg = t.Lookup(in.request(), in.Trace, route.Picker["rr"], match, gc2, in.NoGlob)
+	}
 	if tg == nil {
 		out["res"] = nil
 		return out, nil
@@ -463,10 +485,15 @@ func genLookup(r *hx.Rand, i int) interface{} {
 			in.Headers["Forwarded"] = "for=1.2.3.4; proto=" + proto + "; host=" + r.Pick(rqLabels)
 		}
 	}
+	if r.Chance(1, 10) {
+		in.Trace = r.Pick([]string{"t", "trace-id-0123456", "trace-id-0123456789abcdef"})
+	}
 	return in
 }
 
 func init() {
+	log.SetOutput(io.Discard) // tracing and the "no route" warnings log
+
 	hx.Register(&hx.Stream{
 		Name: "c03.lookup",
 		Gen:  genLookup,
